@@ -501,6 +501,8 @@ func main() {
 	}
 	raceMode = needRace
 	bin := build(id, needRace)
+	buildWall := time.Since(t0)
+	tRun := time.Now() // caps and budgets count exploration time, not build time (cold build caches differ)
 
 	if *replay != "" {
 		os.Exit(doReplay(bin, id, *replay))
@@ -537,7 +539,7 @@ func main() {
 	if capS == 0 {
 		capS = 150
 	}
-	deadline := t0.Add(time.Duration(capS) * time.Second)
+	deadline := tRun.Add(time.Duration(capS) * time.Second)
 	if *tier == "thorough" {
 		b := 900
 		if v := os.Getenv("VERIF_BUDGET_S"); v != "" {
@@ -546,7 +548,7 @@ func main() {
 		if *budget > 0 {
 			b = *budget
 		}
-		deadline = t0.Add(time.Duration(b) * time.Second)
+		deadline = tRun.Add(time.Duration(b) * time.Second)
 	}
 	var mu sync.Mutex
 	issued := map[string]uint64{}
@@ -707,7 +709,7 @@ func main() {
 		}()
 	}
 	wg.Wait()
-	exploreWall := time.Since(t0)
+	exploreWall := time.Since(tRun)
 
 	// ---- determinism self check on a sample ----
 	nondet := 0
@@ -793,12 +795,23 @@ func main() {
 			continue
 		}
 		exit = 1
-		d := ci.viol.Detail
+		d := job.Detail // of the minimised run the replay file reproduces
+		if d == "" {
+			d = ci.viol.Detail
+		}
 		if len(d) > 1500 {
 			d = d[:1500] + "..."
 		}
 		outLines = append(outLines, fmt.Sprintf("VIOLATION property=%s replay=%s", ci.viol.Property, path))
 		outLines = append(outLines, fmt.Sprintf("  class=%s count=%d scenario=%s seed=%d\n  %s", c, ci.count, ci.first.Scenario, ci.first.Seed, strings.ReplaceAll(d, "\n", "\n  ")))
+	}
+
+	// every listed open finding of this property is named on every run; one
+	// the sampled schedules did not reach this time is said to be so
+	for i, f := range findings {
+		if f.Status == "open" && f.Property == id && !knownSeen[i] {
+			outLines = append(outLines, fmt.Sprintf("KNOWN-FINDING: property=%s %s (listed; not reached by this run's %d sampled executions)", id, f.What, total))
+		}
 	}
 
 	// ---- evidence ----
@@ -820,6 +833,8 @@ func main() {
 		"real_components":     cfg.Real,
 		"stub_components":     cfg.Stub,
 		"seed_base":           base,
+		"build_wall_s":        buildWall.Seconds(),
+		"explore_wall_s":      exploreWall.Seconds(),
 		"workers":             nw,
 		"worker_crashes":      crashes,
 		"harness_errors":      harness,
@@ -939,7 +954,8 @@ func minimise(bin string, j Job) (Job, bool) {
 		for lo < hi && budget > 0 {
 			mid := (lo + hi) / 2
 			c := cur
-			set(&c, append([]uint32(nil), tape[:mid]...))
+			// never nil: a job without tapes means "fresh run of the seed" to the worker
+			set(&c, append(make([]uint32, 0, mid+1), tape[:mid]...))
 			if r, ok := try(c); ok {
 				hi = mid
 				cur = c
@@ -993,7 +1009,9 @@ func minimise(bin string, j Job) (Job, bool) {
 	if cur.SchedTape == nil {
 		cur.SchedTape = []uint32{}
 	}
-	if confirm(bin, cur) {
+	// the replay file records what a fresh process shows for exactly these tapes
+	if r := runFresh(bin, cur); hasClass(cur.Property, r, cur.Class) {
+		cur.Detail, cur.Trace = detailOf(r, cur.Class), r.TraceHash
 		return cur, true
 	}
 	// fall back to the unminimised tapes
@@ -1003,7 +1021,12 @@ func minimise(bin string, j Job) (Job, bool) {
 	if j.SchedTape == nil {
 		j.SchedTape = []uint32{}
 	}
-	return j, confirm(bin, j)
+	r := runFresh(bin, j)
+	if hasClass(j.Property, r, j.Class) {
+		j.Detail, j.Trace = detailOf(r, j.Class), r.TraceHash
+		return j, true
+	}
+	return j, false
 }
 
 func detailOf(r Result, class string) string {
